@@ -1,5 +1,6 @@
 import HapVerif.Drv.Common
 import HapVerif.Drv.C01
+import HapVerif.Drv.C01Hosts
 import HapVerif.Drv.C02
 import HapVerif.Drv.C03
 import HapVerif.Drv.C04
@@ -24,6 +25,7 @@ open HapVerif HapVerif.Drv
 def dispatch (line : String) : String :=
   let (lhs, impl) := splitOn1 line " => "
   match words lhs with
+  | "C01" :: "hosts" :: args => (C01Hosts.handle args impl).render
   | "C01" :: args => (C01.handle args impl).render
   | "C02" :: args => (C02.handle args impl).render
   | "C03" :: args => (C03.handle args impl).render
